@@ -48,6 +48,10 @@ def tasks(tier, seed, deepest=True):
                             continue
                         T.append((NP, NL, K, pred, jac, atd, 1, None))
         T.append((2, 1, 2, None, True, False, 2, None))
+        # a block with fewer steps than the controller has processes (the last step of the block is not the last process)
+        T.append((3, 1, 2, None, True, False, 1, {'short': True}))
+        T.append((3, 2, 2, 'pfasst_burnin', True, True, 1, {'short': True}))
+        T.append((2, 2, 2, 'fine_only', False, False, 1, {'short': True}))
         T.append((2, 2, 2, 'pfasst_burnin', True, False, 2, None))
         T.append((2, 1, 2, None, True, False, 1, {'force_done': True, 'force_continue': False}))
         T.append((2, 1, 2, None, True, False, 1, {'force_done': False, 'force_continue': True, 'fc_until': 1}))
@@ -67,6 +71,8 @@ def tasks(tier, seed, deepest=True):
                         for ns in ((1, 2) if NP <= 3 and K <= 3 else (1,)):
                             T.append((NP, NL, K, pred, jac, atd, ns, None))
         if deepest:
+            for NP_, NL_, pred_ in ((3, 1, None), (4, 1, None), (3, 2, 'pfasst_burnin'), (3, 3, 'fine_only'), (4, 2, None)):
+                T.append((NP_, NL_, 3, pred_, True, False, 1, {'short': True}))
             T.append((4, 1, 4, None, True, False, 1, None))  # the largest single configuration (about 10^5 convergence patterns)
         for NP, NL in [(2, 1), (3, 1), (2, 2), (3, 2)]:
             T.append((NP, NL, 2, 'pfasst_burnin' if NL > 1 else None, True, False, 1, {'force_done': True, 'force_continue': False}))
@@ -176,7 +182,7 @@ def explore_config(rep, task, clauses=None, pid=PID):
 
 
 C07_CLAUSES = ('exception', 'finish-order', 'finished-step-changed', 'mixed-stages', 'recv-tag', 'recv-value', 'recv-level', 'grammar',
-               'all-to-done-niter')
+               'all-to-done-niter', 'send-unconsumed')
 
 
 def run_task(rep, task):
